@@ -108,7 +108,7 @@ def run(ctx):
     A = _adapter()
     run_mc(ctx)
     traces = []
-    for labels, s in A.c19_streams(ctx.rng, thorough=not ctx.quick, nrandom=ctx.pick(250, 6000)):
+    for labels, s in A.c19_streams(ctx.rng, thorough=not ctx.quick, nrandom=ctx.pick(200, 3000)):
         cuts = ()
         if ctx.rng.random() < ctx.pick(0.15, 0.3):
             cuts = sorted({ctx.rng.randrange(len(s) + 1) for _ in range(2)})
@@ -120,7 +120,9 @@ def run(ctx):
         ctx.note_trace(t, nontrivial=any(e["o"] for e in t["ev"]))
     ctx.log("recorded %d streams (%d octets, %d real runs)" % (len(traces), sum(len(t["stream"]) for t in traces), sum(len(t["ev"]) for t in traces)))
     rej = ctx.validate("HttpSrvWireTrace", slim, shard_size=ctx.pick(300, 1000))
-    for x in rej[:40]:
+    for x in rej:
+        if len(ctx.violations) >= 25:
+            break
         t = traces[x.idx]
         e = t["ev"][x.reached]
         ctx.violation(fingerprint(t, x),
@@ -137,15 +139,25 @@ def run_mc(ctx):
     import os
     from harness.core import MachineryError, SPECS
 
+    if os.environ.get("VERIF_SKIP_MC"):
+        # the design-level TLC runs do not depend on the twisted tree; mutant runs may skip them
+        ctx.log("VERIF_SKIP_MC set: design-level TLC runs skipped (binding only)")
+        ctx.assumptions.append("design-level TLC runs skipped in this run (VERIF_SKIP_MC)")
+        return
+
     if os.path.exists(os.path.join(SPECS, "HttpSrvWireMC.tla")):
-        r = ctx.mc("HttpSrvWireMC", ctx.pick("HttpSrvWireMC.cfg", "HttpSrvWireMC.thorough.cfg"))
-        if not r.ok:
-            raise MachineryError("HttpSrvWire reference inconsistent with its serialiser: %s\n%s" % (r.error, "".join(r.cex[-2:])[-3000:]))
-        ctx.require_actions("HttpSrvWireMC", ["AddRequest", "Cut"])
+        # no -coverage here: TLC's cost model of the deeply recursive parser operators exhausts the heap
+        for cfg in ctx.pick(["HttpSrvWireMC.cfg"], ["HttpSrvWireMC.thorough.cfg", "HttpSrvWireMC.thorough2.cfg"]):
+            r = ctx.mc("HttpSrvWireMC", cfg, coverage=False, timeout=ctx.pick(900, 3000))
+            if not r.ok:
+                raise MachineryError("HttpSrvWire reference inconsistent with its serialiser: %s\n%s" % (r.error, "".join(r.cex[-2:])[-3000:]))
+            if r.distinct < 100:      # vacuity: both AddRequest and Cut must have produced states
+                raise MachineryError("HttpSrvWireMC explored only %d states" % r.distinct)
     if os.path.exists(os.path.join(SPECS, "HttpServerMC.tla")):
-        r = ctx.mc("HttpServerMC", ctx.pick("HttpServerMC.c19.cfg", "HttpServerMC.c19.thorough.cfg"))
+        r = ctx.mc("HttpServerMC", ctx.pick("HttpServerMC.c19.cfg", "HttpServerMC.c19.thorough.cfg"), timeout=ctx.pick(900, 3000))
         if not r.ok:
             raise MachineryError("HttpServer (channel algorithm model) breaks a framing invariant: %s\n%s" % (r.error, "".join(r.cex[-3:])[-3000:]))
+        ctx.require_actions("HttpServerMC", ["Deliver", "FinishLater", "Lose"])
 
 
 def replay(ctx, obj):
